@@ -37,6 +37,38 @@ import extract  # noqa: E402
 from registry import PROPS  # noqa: E402
 
 
+def configure_alt():
+    """VERIF_REPO=<scratch worktree>: check that tree instead of /repo without touching /repo or
+    the main build directories (used to try candidate changes in parallel).  Lean sources and the
+    harness are mirrored (with their build caches) under .cache/alt/<hash>/."""
+    global LEAN, HARNESS, TARGET, HBIN, DRV, WORK
+    if os.path.realpath(REPO) == "/repo":
+        return
+    import hashlib
+    h = hashlib.sha1(os.path.realpath(REPO).encode()).hexdigest()[:10]
+    alt = os.path.join(CACHE, "alt", h)
+    os.makedirs(alt, exist_ok=True)
+    subprocess.run(["rsync", "-a", "--delete", "--exclude", "Gen/Consts.lean", LEAN + "/", alt + "/lean/"], check=True)
+    subprocess.run(["rsync", "-a", "--delete", "--exclude", "target", "--exclude", "Cargo.toml", HARNESS + "/", alt + "/harness/"], check=True)
+    toml = open(os.path.join(HARNESS, "Cargo.toml")).read().replace('path = "/repo"', 'path = "%s"' % os.path.realpath(REPO))
+    tp = os.path.join(alt, "harness", "Cargo.toml")
+    if not os.path.exists(tp) or open(tp).read() != toml:
+        open(tp, "w").write(toml)
+    LEAN = os.path.join(alt, "lean")
+    HARNESS = os.path.join(alt, "harness")
+    TARGET = os.path.join(alt, "target")
+    HBIN = os.path.join(TARGET, "release", "harness")
+    DRV = os.path.join(LEAN, ".lake", "build", "bin", "drv")
+    WORK = os.path.join(alt, "work")
+    extract.REPO = REPO
+    extract.OUT = os.path.join(LEAN, "Discv5Model", "Gen", "Consts.lean")
+    global EVIDENCE_DIR
+    EVIDENCE_DIR = os.path.join(alt, "evidence")
+
+
+EVIDENCE_DIR = os.path.join(ROOT, "evidence")
+
+
 def log(*a):
     print(*a, file=sys.stderr, flush=True)
 
@@ -54,7 +86,7 @@ def run(cmd, cwd=None, env=None, inp=None, timeout=None):
 class Lock:
     def __init__(self, name):
         os.makedirs(CACHE, exist_ok=True)
-        self.path = os.path.join(CACHE, name + ".lock")
+        self.path = os.path.join(os.path.dirname(LEAN), name + ".lock") if LEAN != os.path.join(ROOT, "lean") else os.path.join(CACHE, name + ".lock")
 
     def __enter__(self):
         self.f = open(self.path, "w")
@@ -592,8 +624,8 @@ def check(prop, tier, seed, replay=None):
     if nt:
         ev["coverage"]["distinct_nontrivial"] = int(sum(coverage_stats.get(e, {}).get("run", {}).get(k, 0) for e, k in nt))
     if not replay:
-        os.makedirs(os.path.join(ROOT, "evidence"), exist_ok=True)
-        with open(os.path.join(ROOT, "evidence", prop + ".json"), "w") as f:
+        os.makedirs(EVIDENCE_DIR, exist_ok=True)
+        with open(os.path.join(EVIDENCE_DIR, prop + ".json"), "w") as f:
             json.dump(ev, f, indent=1)
     for l in out_lines:
         print(l)
@@ -623,6 +655,7 @@ def main():
     ap.add_argument("--all", action="store_true")
     a = ap.parse_args()
     seed = int(os.environ.get("VERIF_SEED", "20260925"))
+    configure_alt()
     if a.setup:
         return setup()
     if a.all:
